@@ -258,8 +258,13 @@ class SystemClock(Clock, metaclass=MetaSystemClock):
         if cls.mode == _libsc3.main.NRT_MODE:
             return
         with cls._sched_cond:
+            keep = []
             while not cls._task_queue.empty():
-                cls._task_queue.pop()
+                item = cls._task_queue.pop()
+                if getattr(item[1], '_survives_clear', False):
+                    keep.append(item)  # Received messages to dispatch.
+            for time, task in keep:
+                cls._task_queue.add(time, task)
             cls._sched_cond.notify_all()
 
     @classmethod
